@@ -463,11 +463,10 @@ func runC07(c *an.Ctx, p *an.Prog, thorough bool) {
 				bad = append(bad, "no sealing call on the success path")
 				return
 			}
-			pt, _ := seal.Args[1].CallOf()
-			if pt == nil || pt.Aux != "fmt.Sprintf" || !pt.Args[0].IsConst(`"%s:%t:%d"`) {
+			if ptArgs, okPt := fmtArgs(seal.Args[1], "%s:%t:%d"); !okPt {
 				bad = append(bad, "sealed plaintext is not Sprintf(\"%s:%t:%d\", …): "+seal.Args[1].K)
 			} else {
-				va := pt.Args[1]
+				va := &an.Term{Op: "varargs", Args: ptArgs}
 				okArgs := va.Op == "varargs" && len(va.Args) == 3 && va.Args[0].K == s.T(gen.Params[1]).K && va.Args[1].K == s.T(gen.Params[2]).K
 				if okArgs {
 					ux, _ := va.Args[2].CallOf()
@@ -478,11 +477,10 @@ func runC07(c *an.Ctx, p *an.Prog, thorough bool) {
 				}
 			}
 			// session text
-			sess, _ := ret.Args[2].CallOf()
-			if sess == nil || sess.Aux != "fmt.Sprintf" || !sess.Args[0].IsConst(`"%s:%s"`) {
+			if sessArgs, okS := fmtArgs(ret.Args[2], "%s:%s"); !okS {
 				bad = append(bad, "session text is not Sprintf(\"%s:%s\", …)")
 			} else {
-				va := sess.Args[1]
+				va := &an.Term{Op: "varargs", Args: sessArgs}
 				for k := 0; k < 2 && va.Op == "varargs" && len(va.Args) == 2; k++ {
 					ec, _ := va.Args[k].CallOf()
 					if ec == nil || ec.Aux != "(*encoding/base64.Encoding).EncodeToString" || !strings.Contains(ec.Args[0].K, "base64.URLEncoding") {
